@@ -558,7 +558,7 @@ func c20Delivery(p *Program, r *Report) {
 			if !isSt {
 				continue
 			}
-			if f, _ := fieldAddr(st.Addr); f == nil || f.Name() != "envelop" || fieldVar(lc.Ctx, f.Name()) != f {
+			if f, _ := fieldAddr(st.Addr); f == nil || f != lc.EnvelopF {
 				continue
 			}
 			c, isC := strip(st.Val).(*ssa.Call)
